@@ -177,6 +177,40 @@ func clFrameGrammar(c *Ctx) {
 		c.Check(dw <= bufSize, dec, d.in, cnt.in(dec, "decode buffer holds the prefix ("+branch+")"), "")
 	}
 	c.Check(current >= 1, dec, nil, "a reader branch handles the current format version", "no decode branch is selected for the version StoreToDisk writes")
+	hasV0 := false
+	for _, d := range dcs {
+		if dfi.guardedByCmp(d.in, token.EQL, isValue(verParam), isConstInt(0)) {
+			hasV0 = true
+		}
+	}
+	c.Check(hasV0 || version == 0, dec, nil, "a reader branch decodes the older format version 0", "files framed in format version 0 are no longer decoded")
+	// every prefix that is read is decoded into the item length (no branch leaves the length at a default)
+	for _, in := range dfi.Instrs {
+		call, ok := in.(*ssa.Call)
+		if !ok || !p.CallsAny(call, p.Func("nitro", "Nitro", "allocItem")) {
+			continue
+		}
+		okLen := true
+		seen := map[ssa.Value]bool{}
+		var walk func(v ssa.Value)
+		walk = func(v ssa.Value) {
+			v = strip(v)
+			if seen[v] {
+				return
+			}
+			seen[v] = true
+			switch x := v.(type) {
+			case *ssa.Phi:
+				for _, e := range x.Edges {
+					walk(e)
+				}
+			case *ssa.Const:
+				okLen = false
+			}
+		}
+		walk(call.Call.Args[1])
+		c.Check(okLen, dec, in, "item length comes from a decoded prefix on every branch", "on some format branch the length prefix is read but not decoded: every item of that format is taken for the terminator")
+	}
 	// nitro.json carries the version constant, LoadFromDisk passes it to the reader
 	st := p.Func("nitro", "Nitro", "StoreToDisk")
 	okVer := false
